@@ -145,6 +145,20 @@ func runDeb(w *core.Worker, c DebCase) {
 						go func() { defer wg.Done(); call(mkf(i)) }()
 					}
 					wg.Wait()
+				case "race": // three calls and a cancel at the same instant from four goroutines: the burst may or may not survive
+					var wg sync.WaitGroup
+					for k := 0; k < 4; k++ {
+						wg.Add(1)
+						go func() {
+							defer wg.Done()
+							if k == 1 {
+								cancel()
+							} else {
+								call(mkf(i))
+							}
+						}()
+					}
+					wg.Wait()
 				case "cancel":
 					cancel()
 				}
@@ -185,6 +199,8 @@ func runDeb(w *core.Worker, c DebCase) {
 					}
 					fail("superseded-call-fired", "wait %v: the function scheduled at +%v ran although %s arrived at +%v", wait, evAt[i], what, evAt[i+1])
 					return
+				case !superseded && cnt == 0 && e.Kind == "race":
+					// the cancel was ordered last
 				case !superseded && cnt == 0:
 					fail("never-fired", "wait %v: the function scheduled at +%v (event %d, no call or cancel within the wait) had not run by +%v", wait, evAt[i], i, time.Since(t0))
 					return
@@ -660,6 +676,18 @@ func TestProp(t *testing.T) {
 				}
 			})
 		}
+		// calls racing with a cancel, followed by calls at 0.3 / 1.2 waits
+		for _, wt := range []int{5000, 50000} {
+			var alpha []DEvent
+			for _, g := range []int{wt*3/10 + 7, wt*12/10 + 3} {
+				alpha = append(alpha, DEvent{g, "race"}, DEvent{g, "call"})
+			}
+			seq.Enum(alpha, 4, func(ev []DEvent) {
+				for rep := 0; rep < 2*reps; rep++ {
+					emit(DebCase{WaitUs: wt, Events: ev, Rep: rep})
+				}
+			})
+		}
 		r.Exhaustive(fmt.Sprintf("debounce: all scripts of length<=%d over {call, burst, cancel} x 4 gaps (0.3, 0.9, 1.2, 3 x wait) x waits {5ms, 50ms}", r.Pick(4, 5)), n)
 		// long bursts of 1..50 calls
 		rng := r.Rand("c20-deb")
@@ -679,6 +707,8 @@ func TestProp(t *testing.T) {
 					kind = "cancel"
 				} else if rng.Chance(1, 8) {
 					kind = "burst"
+				} else if rng.Chance(1, 6) {
+					kind = "race"
 				}
 				c.Events = append(c.Events, DEvent{g, kind})
 			}
